@@ -7,6 +7,7 @@ import (
 	"errors"
 	"io"
 	"sync"
+	"time"
 
 	"google.golang.org/grpc/metadata"
 
@@ -51,6 +52,8 @@ func (m *modStream) Send(r *spb.ModifyResponse) error {
 	m.mu.Lock()
 	defer m.mu.Unlock()
 	if m.sendErr != nil {
+		// a transport that cannot be written to is gone: gRPC cancels the stream's context
+		m.cancel()
 		return m.sendErr
 	}
 	m.sent = append(m.sent, r)
@@ -79,6 +82,12 @@ func (m *modStream) close(err error) {
 	m.closed = true
 	m.closeErr = err
 	m.mu.Unlock()
+	if err != io.EOF {
+		// cancellation / transport failure: gRPC cancels the stream's context, and Recv fails. The server
+		// may observe either first; give the context a head start so that both orders occur.
+		m.cancel()
+		time.Sleep(200 * time.Microsecond)
+	}
 	close(m.in)
 }
 
